@@ -9,11 +9,13 @@ import (
 	"context"
 	"errors"
 	"fmt"
+	"io"
 	"math/rand"
 	"net"
 	"net/http"
 	"os"
 	"sort"
+	"strconv"
 	"strings"
 	"sync"
 	"syscall"
@@ -39,6 +41,7 @@ type NodeSpec struct {
 	Rep   int    `json:"rep,omitempty"`   // which constructed error of that class
 	Delay int64  `json:"delay"`           // ns of virtual time until the node answers
 	Ans   uint64 `json:"ans,omitempty"`   // the answer (identifies the node)
+	Deaf  bool   `json:"deaf,omitempty"`  // the call ignores cancellation of its context (stuck dial / DNS / TLS ...)
 }
 
 // CancelSpec cancels the caller's context At ns after the call started.
@@ -51,7 +54,7 @@ type CancelSpec struct {
 type CaseSpec struct {
 	ID     int         `json:"id"`
 	Kind   string      `json:"kind"`
-	Style  string      `json:"style"` // Plain (SlotsPerEpoch) | Pred (NodeSyncing) | Submit (SubmitAttestations)
+	Style  string      `json:"style"` // Plain (SlotsPerEpoch) | Pred (NodeSyncing) | Submit (SubmitAttestations) | Proxy (POST with a body)
 	Prim   []NodeSpec  `json:"prim"`
 	Fb     []NodeSpec  `json:"fb"`
 	Cancel *CancelSpec `json:"cancel,omitempty"`
@@ -65,6 +68,7 @@ type Case struct {
 	Time       int64    `json:"time"`    // observed instant of return, -1 = did not return
 	SP         []string `json:"sp"`      // observed status of the primaries
 	SF         []string `json:"sf"`      // observed status of the fallbacks
+	Bodies     []string `json:"bodies"`  // Proxy style, primaries then fallbacks: "" not read | ok | bad:<what the node read>
 	Problems   []string `json:"problems,omitempty"`
 	AfterBlock string   `json:"after_block,omitempty"` // what a blocked call returned once the harness cancelled it
 	Nontrivial bool     `json:"nontrivial"`
@@ -143,14 +147,18 @@ var classes = []string{"Timeout", "Syncing", "Gateway", "Other"}
 type scripted struct {
 	eth2wrap.Client // nil: every method the multi client is not expected to call panics
 
-	tag   string
-	spec  NodeSpec
-	start time.Time
+	tag    string
+	spec   NodeSpec
+	start  time.Time
+	readAt time.Duration // Proxy style: when, after being called, the node reads the request body
 
 	mu     sync.Mutex
 	called int
 	stat   string
+	body   string // "" | ok | bad:...
 }
+
+const proxyBody = `{"validator_index":"1","slot":"42"}`
 
 func (n *scripted) Address() string { return "http://" + n.tag }
 
@@ -160,25 +168,72 @@ func (n *scripted) set(stat string) {
 	n.mu.Unlock()
 }
 
-// do is the node's behaviour for any endpoint: answer after Delay, honouring the context.
-func (n *scripted) do(ctx context.Context) error {
+func (n *scripted) get() (string, string, int) {
+	n.mu.Lock()
+	defer n.mu.Unlock()
+
+	return n.stat, n.body, n.called
+}
+
+// sleep waits d of virtual time; false when the context was cancelled first (never for a deaf node).
+func (n *scripted) sleep(ctx context.Context, d time.Duration) bool {
+	tm := time.NewTimer(d)
+	defer tm.Stop()
+	if n.spec.Deaf {
+		<-tm.C
+		return true
+	}
+	select {
+	case <-tm.C:
+		return true
+	case <-ctx.Done():
+		return false
+	}
+}
+
+// do is the node's behaviour for any endpoint: answer after Delay, honouring the context unless
+// deaf. With a request body (Proxy) the node reads it shortly after being called, like an HTTP
+// backend, and rejects a request whose body is not the one the caller sent.
+func (n *scripted) do(ctx context.Context, body io.Reader, hasBody bool) error {
 	n.mu.Lock()
 	n.called++
 	n.stat = "Pending"
 	n.mu.Unlock()
 
-	var fire <-chan time.Time
-	if n.spec.Out != "hang" {
-		tm := time.NewTimer(time.Duration(n.spec.Delay))
-		defer tm.Stop()
-		fire = tm.C
-	}
-	select {
-	case <-fire:
-		n.set(fmt.Sprintf("Done %d", time.Since(n.start).Nanoseconds()))
-	case <-ctx.Done():
+	cancelled := func() error {
 		n.set(fmt.Sprintf("Cancelled %d", time.Since(n.start).Nanoseconds()))
 		return ctx.Err()
+	}
+	rest := time.Duration(n.spec.Delay)
+	bad := false
+	if hasBody {
+		if !n.sleep(ctx, n.readAt) {
+			return cancelled()
+		}
+		rest -= n.readAt
+		var got []byte
+		if body != nil {
+			got, _ = io.ReadAll(body)
+		}
+		n.mu.Lock()
+		if string(got) == proxyBody {
+			n.body = "ok"
+		} else {
+			n.body = "bad:" + string(got)
+			bad = true
+		}
+		n.mu.Unlock()
+	}
+	if n.spec.Out == "hang" {
+		<-ctx.Done()
+		return cancelled()
+	}
+	if !n.sleep(ctx, rest) {
+		return cancelled()
+	}
+	n.set(fmt.Sprintf("Done %d", time.Since(n.start).Nanoseconds()))
+	if bad {
+		return tagErr{n.tag, &eth2api.Error{Method: http.MethodPost, Endpoint: "/eth/v1/x", StatusCode: http.StatusBadRequest, Data: []byte("malformed body")}}
 	}
 	if n.spec.Out == "err" {
 		return reps[n.spec.Class][n.spec.Rep].mk(n.tag)
@@ -188,7 +243,7 @@ func (n *scripted) do(ctx context.Context) error {
 }
 
 func (n *scripted) SlotsPerEpoch(ctx context.Context) (uint64, error) {
-	if err := n.do(ctx); err != nil {
+	if err := n.do(ctx, nil, false); err != nil {
 		return 0, err
 	}
 
@@ -196,7 +251,7 @@ func (n *scripted) SlotsPerEpoch(ctx context.Context) (uint64, error) {
 }
 
 func (n *scripted) NodeSyncing(ctx context.Context, _ *eth2api.NodeSyncingOpts) (*eth2api.Response[*eth2v1.SyncState], error) {
-	if err := n.do(ctx); err != nil {
+	if err := n.do(ctx, nil, false); err != nil {
 		return nil, err
 	}
 
@@ -206,7 +261,19 @@ func (n *scripted) NodeSyncing(ctx context.Context, _ *eth2api.NodeSyncingOpts) 
 }
 
 func (n *scripted) SubmitAttestations(ctx context.Context, _ *eth2api.SubmitAttestationsOpts) error {
-	return n.do(ctx)
+	return n.do(ctx, nil, false)
+}
+
+func (n *scripted) Proxy(ctx context.Context, req *http.Request) (*http.Response, error) {
+	var body io.Reader
+	if req.Body != nil {
+		body = req.Body
+	}
+	if err := n.do(ctx, body, true); err != nil {
+		return nil, err
+	}
+
+	return &http.Response{StatusCode: http.StatusOK, Header: http.Header{"X-Ans": {fmt.Sprint(n.spec.Ans)}}, Body: http.NoBody}, nil
 }
 
 // ---- running one case ---------------------------------------------------------------------
@@ -258,8 +325,17 @@ func runCase(t *testing.T, spec CaseSpec) Case {
 		mk := func(prefix string, specs []NodeSpec) ([]*scripted, []eth2wrap.Client) {
 			var ns []*scripted
 			var cls []eth2wrap.Client
+			rank := map[int]int{}
+			for k, i := range scriptedOrder(specs) {
+				rank[i] = k
+			}
 			for i, s := range specs {
 				n := &scripted{tag: fmt.Sprintf("%s%d", prefix, i), spec: s, start: start, stat: "NotCalled"}
+				if r, ok := rank[i]; ok { // the earlier a node completes the earlier it reads the request
+					n.readAt = time.Duration(r+1) * time.Microsecond
+				} else {
+					n.readAt = time.Duration(len(specs)+i+1) * time.Microsecond
+				}
 				ns = append(ns, n)
 				cls = append(cls, n)
 			}
@@ -326,6 +402,20 @@ func runCase(t *testing.T, spec CaseSpec) Case {
 				}
 			case "Submit":
 				err = cl.SubmitAttestations(ctx, &eth2api.SubmitAttestationsOpts{})
+			case "Proxy":
+				req, rerr := http.NewRequest(http.MethodPost, "http://vc/eth/v1/x", strings.NewReader(proxyBody))
+				if rerr != nil {
+					t.Fatal(rerr)
+				}
+				var resp *http.Response
+				resp, err = cl.Proxy(ctx, req)
+				if err == nil {
+					if resp == nil {
+						c.Problems = append(c.Problems, "nil response with nil error")
+					} else {
+						ans, _ = strconv.ParseUint(resp.Header.Get("X-Ans"), 10, 64)
+					}
+				}
 			}
 			elapsed = time.Since(start)
 		}()
@@ -347,16 +437,19 @@ func runCase(t *testing.T, spec CaseSpec) Case {
 			blocked = true
 		}
 		synctest.Wait() // let cancelled node calls record what they saw
-		for _, n := range prim {
-			c.SP = append(c.SP, n.stat)
-		}
-		for _, n := range fb {
-			c.SF = append(c.SF, n.stat)
-		}
+		anyDeaf := false
 		for _, n := range all {
-			if n.called > 1 {
-				c.Problems = append(c.Problems, fmt.Sprintf("node %s called %d times", n.tag, n.called))
+			st, body, called := n.get()
+			if strings.HasPrefix(n.tag, "P") {
+				c.SP = append(c.SP, st)
+			} else {
+				c.SF = append(c.SF, st)
 			}
+			c.Bodies = append(c.Bodies, body)
+			if called > 1 {
+				c.Problems = append(c.Problems, fmt.Sprintf("node %s called %d times", n.tag, called))
+			}
+			anyDeaf = anyDeaf || n.spec.Deaf
 		}
 
 		if blocked {
@@ -373,6 +466,9 @@ func runCase(t *testing.T, spec CaseSpec) Case {
 		}
 		cancelRoot()
 		synctest.Wait()
+		if anyDeaf {
+			time.Sleep(2 * horizon) // let the abandoned calls drain before leaving the bubble
+		}
 	})
 
 	tm := "None"
@@ -386,7 +482,7 @@ func runCase(t *testing.T, spec CaseSpec) Case {
 	nodes := func(ns []NodeSpec) string {
 		ss := make([]string, len(ns))
 		for i, n := range ns {
-			ss[i] = fmt.Sprintf("mkn %s %d", outcomeTerm(n), n.Delay)
+			ss[i] = fmt.Sprintf("mkn %s %d %v", outcomeTerm(n), n.Delay, n.Deaf)
 		}
 
 		return "[" + strings.Join(ss, "; ") + "]"
@@ -448,7 +544,7 @@ func render(c *Case, cl eth2wrap.Client, all []*scripted, err error, ans uint64,
 			if soft {
 				return fmt.Sprintf("(RSoft %s %d)", nodeRef(winner.tag), ans)
 			}
-			if a := strings.TrimPrefix(cl.Address(), "http://"); a != winner.tag {
+			if a := strings.TrimPrefix(cl.Address(), "http://"); c.Style != "Proxy" && a != winner.tag {
 				c.Problems = append(c.Problems, "selector names "+a+" but the answer is "+winner.tag+"'s")
 			}
 
@@ -458,6 +554,9 @@ func render(c *Case, cl eth2wrap.Client, all []*scripted, err error, ans uint64,
 	var te tagErr
 	if errors.As(err, &te) {
 		n := byTag(te.tag)
+		if n != nil && strings.HasPrefix(n.body, "bad:") { // the node rejected a request it did not receive intact
+			return fmt.Sprintf("(RErr %s Other)", nodeRef(n.tag))
+		}
 		if n == nil || n.spec.Out != "err" {
 			c.Problems = append(c.Problems, "error of an unknown node: "+err.Error())
 			return "(RErr (P 99) Other)"
@@ -674,6 +773,11 @@ func (g *gen) randomNodes(style, prefix string, n int, ties bool) []NodeSpec {
 	}
 	os := orders(v)
 	w := g.place(style, prefix, v, os[g.r.Intn(len(os))])
+	for i := range w {
+		if w[i].Out != "hang" && g.r.Intn(5) == 0 {
+			w[i].Deaf = true
+		}
+	}
 	if ties {
 		for i := range w {
 			if w[i].Out != "hang" {
@@ -686,9 +790,9 @@ func (g *gen) randomNodes(style, prefix string, n int, ties bool) []NodeSpec {
 }
 
 func (g *gen) random(n, maxP, maxF int, ties bool, kind string) {
-	styles := []string{"Plain", "Pred", "Submit"}
+	styles := []string{"Plain", "Pred", "Submit", "Proxy"}
 	for k := 0; k < n; k++ {
-		st := styles[g.r.Intn(3)]
+		st := styles[g.r.Intn(4)]
 		c := CaseSpec{Kind: kind, Style: st,
 			Prim: g.randomNodes(st, "P", g.r.Intn(maxP+1), ties),
 			Fb:   g.randomNodes(st, "F", g.r.Intn(maxF+1), ties)}
@@ -737,6 +841,75 @@ func (g *gen) wide() {
 			fok := ok
 			fok.Ans = ans(uint64(200 + n - 1))
 			g.add(CaseSpec{Kind: "wide", Style: st, Prim: failing, Fb: append(append([]NodeSpec{}, hung...), fok)})
+		}
+	}
+}
+
+// deaf: node calls that ignore cancellation of their context (a request stuck in a dial / DNS
+// lookup / TLS handshake) and return only after a long time. They must delay neither another
+// node's successful answer nor the caller's cancellation.
+func (g *gen) deaf(systematic bool) {
+	ms := int64(time.Millisecond)
+	hour := int64(time.Hour)
+	for _, st := range []string{"Plain", "Submit", "Proxy", "Pred"} {
+		ans := func(a uint64) uint64 {
+			if st == "Submit" {
+				return 0
+			}
+
+			return a
+		}
+		stuck := NodeSpec{Out: "err", Class: "Timeout", Delay: hour, Deaf: true}
+		lateOK := NodeSpec{Out: "ok", Delay: hour, Deaf: true, Ans: ans(150)}
+		ok := func(i int) NodeSpec { return NodeSpec{Out: "ok", Delay: 10 * ms, Ans: ans(uint64(100 + i))} }
+		fok := func(i int) NodeSpec { return NodeSpec{Out: "ok", Delay: 10 * ms, Ans: ans(uint64(200 + i))} }
+		down := NodeSpec{Out: "err", Class: "Gateway", Delay: 5 * ms}
+		hang := NodeSpec{Out: "hang"}
+		slow := NodeSpec{Out: "ok", Delay: 2 * hour, Ans: ans(160)}
+		add := func(prim, fb []NodeSpec, cancel *CancelSpec) {
+			g.add(CaseSpec{Kind: "deaf", Style: st, Prim: prim, Fb: fb, Cancel: cancel})
+		}
+		// (a) another primary succeeds quickly
+		add([]NodeSpec{stuck, ok(1)}, nil, nil)
+		add([]NodeSpec{ok(0), stuck}, nil, nil)
+		add([]NodeSpec{lateOK, ok(1)}, nil, nil)
+		add([]NodeSpec{stuck, stuck, ok(2)}, []NodeSpec{fok(0)}, nil)
+		// (b) the primaries fail, the fallback round contains the stuck node and a healthy one
+		add([]NodeSpec{down}, []NodeSpec{stuck, fok(1)}, nil)
+		add([]NodeSpec{down, down}, []NodeSpec{fok(0), stuck}, nil)
+		// (c) the caller gives up while a stuck call and an ordinary in-flight call are awaited
+		for _, dl := range []bool{false, true} {
+			add([]NodeSpec{stuck, hang}, nil, &CancelSpec{At: int64(time.Second), Deadline: dl})
+			add([]NodeSpec{hang, stuck}, []NodeSpec{fok(0)}, &CancelSpec{At: int64(time.Second), Deadline: dl})
+			add([]NodeSpec{stuck, slow}, nil, &CancelSpec{At: int64(time.Second), Deadline: dl})
+			add([]NodeSpec{down}, []NodeSpec{stuck, hang}, &CancelSpec{At: int64(time.Second), Deadline: dl})
+			// only the stuck call is awaited: the cancellation is noticed when it returns (what the code does)
+			add([]NodeSpec{stuck}, nil, &CancelSpec{At: int64(time.Second), Deadline: dl})
+		}
+	}
+	if !systematic {
+		return
+	}
+	// every vector of two primaries with every non-empty choice of context-ignoring completing nodes,
+	// three fallback groups, every cancellation gap
+	for _, st := range []string{"Plain", "Submit"} {
+		a := alphabet(st)
+		fbs := [][]NodeSpec{{}, {{Out: "ok"}}, {{Out: "err", Class: "Timeout", Deaf: true}, {Out: "ok"}}}
+		for _, pv := range vectors(a, 2) {
+			for _, po := range orders(pv) {
+				for mask := 1; mask < 1<<len(po); mask++ {
+					for _, fv := range fbs {
+						c := CaseSpec{Kind: "deaf", Style: st, Prim: g.place(st, "P", pv, po), Fb: g.place(st, "F", fv, orders(fv)[0])}
+						for k, i := range po {
+							if mask&(1<<k) != 0 {
+								c.Prim[i].Deaf = true
+							}
+						}
+						g.add(c)
+						g.withCancels(c, "deaf")
+					}
+				}
+			}
 		}
 	}
 }
@@ -805,19 +978,30 @@ func TestGen(t *testing.T) {
 		{Style: "Plain", Prim: []NodeSpec{{Out: "hang"}, {Out: "err", Class: "Timeout", Delay: ms}}, Fb: []NodeSpec{{Out: "ok", Delay: ms, Ans: 200}}, Cancel: &CancelSpec{At: 10 * ms}},
 		{Style: "Plain", Prim: []NodeSpec{{Out: "err", Class: "Timeout", Delay: ms}}, Fb: []NodeSpec{{Out: "hang"}}, Cancel: &CancelSpec{At: 10 * ms, Deadline: true}},
 	}
+	corpus = append(corpus,
+		// proxied POST: the failing primary reads the request first, the healthy one afterwards
+		CaseSpec{Style: "Proxy", Prim: []NodeSpec{{Out: "err", Class: "Other", Rep: 2, Delay: ms}, {Out: "ok", Delay: 2 * ms, Ans: 101}}},
+		// proxied POST: primary unavailable, the fallback must get the same request
+		CaseSpec{Style: "Proxy", Prim: []NodeSpec{{Out: "err", Class: "Gateway", Delay: ms}}, Fb: []NodeSpec{{Out: "ok", Delay: ms, Ans: 200}}},
+		// a call stuck for an hour ignoring its context next to a healthy node / next to a caller that gives up
+		CaseSpec{Style: "Plain", Prim: []NodeSpec{{Out: "err", Class: "Timeout", Delay: int64(time.Hour), Deaf: true}, {Out: "ok", Delay: 10 * ms, Ans: 101}}},
+		CaseSpec{Style: "Submit", Prim: []NodeSpec{{Out: "err", Class: "Timeout", Delay: int64(time.Hour), Deaf: true}, {Out: "hang"}}, Cancel: &CancelSpec{At: int64(time.Second)}},
+	)
 	for _, c := range corpus {
 		c.Kind = "corpus"
 		g.add(c)
 	}
 
 	g.wide()
+	g.deaf(true)
 
 	styles := []string{"Plain", "Submit", "Pred"}
 	if hx.Thorough() {
 		g.exhaustive("Plain", 3, 2, true) // the full product
 		g.exhaustive("Submit", 3, 2, true)
 		g.exhaustive("Pred", 3, 2, false) // 7 outcomes per node: fallback group reduced when it cannot matter
-		for _, st := range styles { // cancellation in every gap of every <= 2+1 run
+		g.exhaustive("Proxy", 3, 2, false)
+		for _, st := range append(styles, "Proxy") { // cancellation in every gap of every <= 2+1 run
 			h := &gen{r: g.r}
 			h.exhaustive(st, 2, 1, true)
 			for _, b := range h.cases {
@@ -827,12 +1011,13 @@ func TestGen(t *testing.T) {
 		g.random(hx.IntEnv("VERIF_N", 6000), 6, 4, false, "random")
 		g.random(3000, 3, 2, true, "ties")
 	} else {
-		for _, st := range styles {
+		for _, st := range append(styles, "Proxy") {
 			g.exhaustive(st, 2, 1, true)
 		}
 		h := &gen{r: g.r}
 		h.exhaustive("Plain", 2, 1, true)
 		h.exhaustive("Submit", 1, 1, true)
+		h.exhaustive("Proxy", 1, 1, true)
 		for _, b := range h.cases {
 			g.withCancels(b, "cancel")
 		}
